@@ -643,6 +643,16 @@ def render_source(nodes, d=DEFAULT_DELIMS):
     return "".join(out)
 
 
+_DELIM_RE = __import__("re").compile(r"\{\{|\}\}|\{%|%\}")
+
+
+def _subst_delims(text, d):
+    """Rewrite default delimiters inside block text in ONE pass (sequential str.replace would
+    re-scan its own output and corrupt delimiters that share characters)."""
+    m = {"{{": d["os"], "}}": d["oe"], "{%": d["ts"], "%}": d["te"]}
+    return _DELIM_RE.sub(lambda x: m[x.group(0)], text)
+
+
 def _tag(d, name, args, w=""):
     inner = name + ((" " + args) if args else "")
     return "%s%s %s %s%s" % (d["ts"], _wc_l(w), inner, _wc_r(w), d["te"])
@@ -671,12 +681,12 @@ def _render_node(n, d, out):
         out.append(_tag(d, end, "", w))
     elif k == "rawblock":
         _, open_, text, end = n
-        text = text.replace("{{", d["os"]).replace("}}", d["oe"]).replace("{%", d["ts"]).replace("%}", d["te"])
+        text = _subst_delims(text, d)
         out.append(_tag(d, open_, ""))
         out.append(text)
         out.append(_tag(d, end, ""))
     elif k == "tcomment":
-        out.append("%s%s%s" % (d["cs"], n[1].replace("{{", d["os"]).replace("}}", d["oe"]), d["ce"]))
+        out.append("%s%s%s" % (d["cs"], _subst_delims(n[1], d), d["ce"]))
     elif k == "liquid":
         lines = []
         _liquid_lines(n[1], lines, d.get("lc", "#"))
